@@ -4,7 +4,7 @@
    the deterministic simulated MPI with deadlock / spin detection on every run. *)
 From Coq Require Import ZArith List Bool Lia.
 Import ListNotations.
-From Ygm Require Import RankMachine RankInv RankNoErr.
+From Ygm Require Import RankMachine RankInv RankNoErr RankBound RankSendBound.
 
 Theorem C03_send_wait_polls : forall c fuel s,
   (1 <= fuel)%nat -> sendq s <> [] -> inprq s = false -> intr s = true -> oracle s = [] ->
@@ -61,6 +61,40 @@ Theorem C03_bcast_flushes_to_capacity_in_every_context : forall c fuel m s s',
   run fuel c (PBcast m) s = Ok s' -> (sbb s' <= c_cap c)%Z.
 Proof. exact bcast_unsent_le_cap_any_context. Qed.
 Print Assumptions C03_bcast_flushes_to_capacity_in_every_context.
+
+(* ... and therefore what a handler sends is bounded: for every handler program made of point-to-point asyncs (plain, by
+   reference, with a stateful functor), multicasts, local_progress and local effects whose messages carry at most L payload
+   bytes, every capacity, routing scheme and contents of the send buffers: if at most X >= capacity bytes are buffered when
+   the handler starts, every MPI_Isend posted while it runs carries at most X + W bytes (W = wire size of one largest
+   message) and at most X bytes are buffered when it ends - however the run ends.  (Before D13 the replies of all handlers
+   of one received buffer left as ONE send; broadcasts issued by handlers are not covered: their forwarding legs are
+   flushed once per received buffer.) *)
+Theorem C03_what_a_handler_sends_is_bounded : forall c nr L,
+  (0 <= L)%Z -> (forall d, rng nr d -> rng nr (next_hop c d)) -> forall fuel l s X,
+  (c_cap c <= X)%Z -> forallb (hsmall nr L) l = true ->
+  K c nr s -> inprq s = true -> (sbb s <= X)%Z -> SendsLe c (X + W c L) (log s) ->
+  match run fuel c (PActs l) s with
+  | Ok s' => (sbb s' <= X)%Z /\ SendsLe c (X + W c L) (log s')
+  | Blocked s' | Err _ s' => SendsLe c (X + W c L) (log s')
+  | OutOfFuel => True
+  end.
+Proof. exact handler_sends_bounded. Qed.
+Print Assumptions C03_what_a_handler_sends_is_bounded.
+
+(* non-vacuity: with capacity 100 and four 60-byte replies to rank 1 a handler posts two sends of 156 bytes (two messages
+   each: the second reply pushes the buffer over the capacity), never one of 312 *)
+Example C03_handler_bound_not_vacuous :
+  let c := {| c_n := 2; c_p := 1; c_me := 0; c_routing := 0; c_cap := 100; c_nisw := 4; c_freq := 0;
+              c_hprog := fun _ => []; c_cbprog := fun _ => [] |} in
+  let s0 := set_inprq true (init_st 2 []) in
+  K c 2 s0 /\ forallb (hsmall 2 60) [AAsync 1 1 60; AAsync 1 2 60; AAsync 1 3 60; AAsync 1 4 60] = true /\
+  exists s', run 100 c (PActs [AAsync 1 1 60; AAsync 1 2 60; AAsync 1 3 60; AAsync 1 4 60]) s0 = Ok s' /\
+             map (fun e => match e with EIsend _ _ ms => wires c ms | _ => 0%Z end) (filter (fun e => match e with EIsend _ _ _ => true | _ => false end) (log s')) = [156; 156]%Z /\
+             sbb s' = 0%Z.
+Proof.
+  cbv zeta. split; [repeat split; try reflexivity; repeat constructor|]. split; [reflexivity|].
+  eexists. split; [vm_compute; reflexivity|]. split; reflexivity.
+Qed.
 
 (* non-vacuity: a two-rank run with a capacity-exceeding async, a received message whose handler replies, and the
    destructor's barrier completing (status Ok) *)
